@@ -45,7 +45,7 @@ from harness.common import exc_name, jdump
 PID = "C19"
 TITLE = "Output files always match the current data and nothing unchanged is redone"
 LEAN_MODULES = ["LenaModel.Props.C19"]
-LEAN_SOURCES = ["LenaModel/Model/C19.lean", "LenaModel/Props/C19.lean"]
+LEAN_SOURCES = ["LenaModel/Model/C19.lean", "LenaModel/Lemmas/C19.lean", "LenaModel/Props/C19.lean"]
 DRIVER = "drivers/C19.lean"
 THEOREMS = [
     "Lena.C19.run_fresh_partial",
@@ -74,6 +74,10 @@ THEOREMS = [
     "Lena.C19.combineChanged_spec",
     "Lena.C19.group_changed_sticky",
     "Lena.C19.group_changed_after_mapgroup",
+    "Lena.C19.grpCore_fresh",
+    "Lena.C19.group_fresh_partial",
+    "Lena.C19.runPlots_fresh",
+    "Lena.C19.tailStage_eq_downCore",
 ]
 CASE_TIMEOUT = 20
 
@@ -1265,16 +1269,19 @@ def gen_cases(ctx):
     # histories of two steps after the first run
     alpha1 = list(_alphabet("separate", 1, std))
     if thorough:
+        # E: one plot, standard options: ALL histories of up to four runs (the first run is fixed by symmetry)
         for s1 in alpha1:
             for s2 in alpha1:
                 add({"op": "hist", "steps": [first, s1, s2]})
+                for s3 in alpha1:
+                    add({"op": "hist", "steps": [first, s1, s2, s3]})
         galpha = list(_alphabet("group", 2, std))
-        for _ in range(6000):
+        for _ in range(20000):
             add({"op": "hist", "steps": [gfirst, rng.choice(galpha), rng.choice(galpha)]})
         calpha = list(_alphabet("separate", 1, ALL_CFGS))
-        for _ in range(8000):
+        for _ in range(30000):
             add({"op": "hist", "steps": [first, rng.choice(calpha), rng.choice(calpha)]})
-        for _ in range(12000):
+        for _ in range(40000):
             add(_random_history(rng))
     else:
         for _ in range(900):
@@ -1332,10 +1339,51 @@ def shrink(case):
 
 
 # ---- MANIFEST texts ------------------------------------------------------------------------
-TRUSTED = []
-ASSUMPTIONS = []
-RULE = ""
-LEVEL_TEXT = ""
-LEVEL_NOTE = ""
+TRUSTED = [
+    "Lean 4.33.0 kernel; axioms limited to propext, Classical.choice, Quot.sound (audited by #print axioms on every run; "
+    "the concrete witnesses are evaluated by the kernel with `decide +kernel`, no native_decide)",
+    "hand transcription of Write.run/_make_filename, MakeFilename.__init__/__call__, RenderLaTeX.run (default selector), "
+    "LaTeXToPDF.run, PDFToPNG.run, group_plots, MapGroup.run/_update_with_group (on context.output) into "
+    "LenaModel/Model/C19.lean, validated by this correspondence check (every branch of every modelled function is hit by "
+    "the exhaustive stage cases; whole histories are compared file by file)",
+    "the abstraction of the file system (paths -> content + logical modification time, implicit directories), of "
+    "context.output as a slot vector, and of converters as functions of the contents they read at launch",
+    "stub converters (in-process stand-in for subprocess inside the two lena modules; real sh scripts on a sample) and "
+    "the logical clock the harness puts on modification times between runs",
+    "posixpath.join / isabs / str.replace as transcribed (pjoin, isAbs, strReplace), validated by the wmf/latex/png cases",
+    "JSON line protocol encoders (harness/props/c19.py, drivers/C19.lean)",
+]
+ASSUMPTIONS = [
+    "converters are deterministic functions of the text of the file they are given and of the files that text names; a "
+    "subprocess is modelled as running to completion at launch (plots with different file names do not interfere)",
+    "files are only changed by the pipeline and by the deletions of the history; modification times are strictly "
+    "increasing along writes (mtime granularity is outside the model)",
+    "ToCSV and jinja2 are functions of their input: csvOf(data), texOf(template, paths of the csv files); the harness "
+    "checks the texts against an independent formula / the template it wrote",
+    "contexts: only context.output and the key `name` are modelled; file-name templates are literals and {{name}}",
+    "theorems about freshness assume SourceClosed (every existing pdf has its tex and csv files on disk at the start of "
+    "a run); without it the statement is false for the code as it is (history_fresh_full_fails = the known finding)",
+]
+RULE = ("stage cases (exhaustive small scopes): MakeFilename arguments x name x incoming output (all valid combinations), "
+        "Write._make_filename keys x output directories, Write.run mode x existing file {none, same, different} x incoming "
+        "changed {unset, True, False} x data kind, LaTeXToPDF overwrite x changed x tex/pdf presence and mtime order, "
+        "PDFToPNG likewise, group_plots and _update_with_group over {unset, True, False}^(1..3).  Histories: one plot, first "
+        "run then EVERY step of the alphabet data{keep,change} x template{keep,change} x deletion of any subset of "
+        "csv/tex/pdf/png (64), the same with all 36 option settings; a group of two plots with every step of its "
+        "256-step alphabet; groups of 1 and 3, 2 and 3 separate plots and seven naming variants with single deletions; "
+        "quick adds 900 sampled two-step and 500 random histories (1-3 plots, 2-4 runs, random options), thorough "
+        "enumerates ALL histories of up to four runs of one plot with standard options (4096 + 262 144) and samples 90 000 more; real sh-script converters on a "
+        "sample.  Non-trivial: a history of at least two completed runs.")
+LEVEL_TEXT = ("Lean 4 theorems about a transcribed model of the output pipeline over an abstract file system, for all "
+              "converters, pre-states satisfying the stated invariant, data, templates, numbers of plots and option "
+              "settings (unbounded): freshness of all files after a run and along histories under SourceClosed "
+              "(run_fresh_partial, history_fresh_partial, group_fresh_partial), the proved negation of the unrestricted "
+              "statement on the concrete witness (history_fresh_full_fails: a genuine defect that the unedited test-suite "
+              "pins, listed as a known finding), idle runs are no-ops, output.changed is sticky, MakeFilename/Write naming "
+              "rules; tied to /repo by a correspondence check that compares file-system snapshots, converter logs and "
+              "yielded contexts of whole histories, plus a direct freshness/no-redo oracle on the real code.")
+LEVEL_NOTE = ("Trusted: Lean kernel (+ propext, Classical.choice, Quot.sound), the hand transcription validated by the "
+              "correspondence run, the file-system/converter abstraction, stub converters.  Freshness is proved only for "
+              "runs that start SourceClosed; the remaining case is the known finding (checked to be exactly that class).")
 TECHNIQUE = "Lean 4 proof over hand-written model + correspondence check on histories in a temporary directory"
 DESIGN_REF = "DESIGN.md section 3, C19"
